@@ -19,6 +19,8 @@ def dec_index(ix, env):
         return np.array(ix[1], dtype=np.int64)
     if t == "mask":
         return np.array(ix[1], dtype=bool)
+    if t == "blist":
+        return [bool(b) for b in ix[1]]
     if t == "ell":
         return Ellipsis
     if t == "unit":
